@@ -27,8 +27,9 @@ CLAIM = dict(
     technique='Coq proof over hand-written model + extracted-model/implementation correspondence + specification oracle on every entry point',
     note="Bounds and monotonicity along the curve, and conservation where it relies on the right-hand side summing to zero, are checked "
          "numerically on the implementation's output (the flow lift is cited, DESIGN section 3.7); the solver (scipy odeint/ode) is assumed to "
-         "return the initial value as first row.",
-    claimed=False)
+         "return the initial value as first row. Modelled in Coq: the 17 ODE *_from_graph wrappers (row 0 correspondence on every run); row0/accepts theorems "
+         "for the homogeneous and heterogeneous mean field, homogeneous pairwise (partial), compact pairwise and super compact wrappers; the other entry points "
+         "(solver-level functions, effective degree, EBCM, pref-mix, individual/pair based, Attack_rate_*_from_graph) are covered by the oracle only.")
 
 TOL0 = 1e-9
 
@@ -234,7 +235,7 @@ def in_domain(case, o):
 
 
 def gen_cases(rng, tier):
-    per = 24 if tier == 'quick' else 200
+    per = 24 if tier == 'quick' else 400
     cases = []
     for name, e in OC.ENTRIES.items():
         for full in e.fulls():
